@@ -300,6 +300,7 @@ func c10Trusted(w *core.WorkerCtx) {
 		} else {
 			err = world.Deliver(n, &v, "forbidden vertex of a trusted sealer")
 		}
+		w.R.Count("c10_trusted_sealer_rounds_judged", 1)
 		world.EvalFor("C10", 1)
 		world.NontrivFor("C10", fmt.Sprintf("trusted-sealer/%s/%s/refused=%v", rule, entry, err != nil))
 		if _, held := n.Prev.Vertex(v.Hash); held {
@@ -308,7 +309,6 @@ func c10Trusted(w *core.WorkerCtx) {
 		m := world.NewTrx(u[0], u[1].Addr, spice.Melange{}, []byte("merge"))
 		world.Propose(n, &m, "merge")
 	}
-	w.R.Count("c10_trusted_sealer_scenarios", 1)
 }
 
 // c10HeaviestTip: a peer gossips correctly sealed vertices whose weight is as large as the counter goes (2^64-1,
